@@ -135,7 +135,7 @@ Unk == <<[name |-> "CodeLevel", bytes |-> "00ff"]>>
 
 Versions == {<<45, 3>>, <<45, 65535>>, <<46, 0>>, <<47, 0>>, <<48, 0>>, <<49, 0>>, <<50, 0>>, <<51, 0>>, <<52, 0>>, <<53, 0>>, <<54, 0>>, <<55, 0>>,
              <<55, 7>>, <<56, 0>>, <<57, 0>>, <<58, 0>>, <<59, 0>>, <<60, 0>>, <<61, 0>>, <<62, 0>>, <<63, 0>>, <<64, 0>>, <<65, 0>>, <<66, 0>>,
-             <<66, 65535>>, <<67, 0>>}
+             <<66, 65535>>, <<67, 0>>, <<67, 65535>>}
 
 Families == {"shape", "branch", "pair", "exc", "dbg", "frm", "all", "ver", "members"} \cup (IF Tier = 1 THEN {"mix"} ELSE {})
 
